@@ -84,7 +84,30 @@ fn data_series(i: usize) -> cram::container::compression_header::data_series_enc
 pub enum WriteOut {
     Ok(Vec<u8>),
     Rejected(String),
-    Panic(String),
+    /// message and source location (`noodles-cram/src/…:line`) of the panic
+    Panic(String, String),
+}
+
+/// location of the most recent panic, recorded by a hook chained in front of the one `main` installed
+static PANIC_AT: std::sync::Mutex<String> = std::sync::Mutex::new(String::new());
+
+fn install_panic_location_hook() {
+    static ONCE: std::sync::Once = std::sync::Once::new();
+    ONCE.call_once(|| {
+        let prev = std::panic::take_hook();
+        std::panic::set_hook(Box::new(move |info| {
+            if let (Some(l), Ok(mut at)) = (info.location(), PANIC_AT.lock()) {
+                let f = l.file();
+                let f = f.find("noodles-").map(|k| &f[k..]).unwrap_or(f);
+                *at = format!("{f}:{}", l.line());
+            }
+            prev(info);
+        }));
+    });
+}
+
+fn last_panic_location() -> String {
+    PANIC_AT.lock().map(|s| s.clone()).unwrap_or_default()
 }
 
 struct Parsed {
@@ -162,7 +185,7 @@ fn write_cram(case: &Case, p: &Parsed) -> WriteOut {
     match r {
         Ok(Ok(v)) => WriteOut::Ok(v),
         Ok(Err(e)) => WriteOut::Rejected(format!("{}: {e}", errclass(&e))),
-        Err(p) => WriteOut::Panic(p),
+        Err(p) => WriteOut::Panic(p, last_panic_location()),
     }
 }
 
@@ -341,23 +364,48 @@ fn block_contents(w: &Walk) -> Vec<(usize, usize, u8, i32, Vec<u8>)> {
     v
 }
 
-fn codec_roundtrip(e: &Enc, src: &[u8], lens: &[usize]) -> Result<(), String> {
+/// outcome of running one codec over one block content in isolation
+enum Rt {
+    Same,
+    /// the ENCODER returned an error: it refuses the input (e.g. rANS 4x8 order 1 on fewer than 4 bytes). The
+    /// writer then returns that error: "rejected", never a violation, and never a self-round-trip failure.
+    Refused(String),
+    /// panic, or the decoder fails on / mis-decodes the encoder's own output
+    Broken(String),
+}
+
+fn codec_roundtrip(e: &Enc, src: &[u8], lens: &[usize]) -> Rt {
     use cram::verif as v;
-    let r = guarded(|| -> std::io::Result<Vec<u8>> {
+    let enc = guarded(|| -> std::io::Result<Vec<u8>> {
         match e {
-            Enc::R4x8(o) => v::rans_4x8_decode(&v::rans_4x8_encode(if *o == 0 { cram::codecs::rans_4x8::Order::Zero } else { cram::codecs::rans_4x8::Order::One }, src)?),
-            Enc::Nx16(f) => v::rans_nx16_decode(&v::rans_nx16_encode(cram::codecs::rans_nx16::Flags::from_bits_retain(*f), src)?, src.len()),
-            Enc::Aac(f) => v::aac_decode(&v::aac_encode(cram::codecs::aac::Flags::from_bits_retain(*f), src)?, src.len()),
-            Enc::Tok => v::name_tokenizer_decode(&v::name_tokenizer_encode(src)?),
-            Enc::Fqz => v::fqzcomp_decode(&v::fqzcomp_encode(lens, src)?),
+            Enc::R4x8(o) => v::rans_4x8_encode(if *o == 0 { cram::codecs::rans_4x8::Order::Zero } else { cram::codecs::rans_4x8::Order::One }, src),
+            Enc::Nx16(f) => v::rans_nx16_encode(cram::codecs::rans_nx16::Flags::from_bits_retain(*f), src),
+            Enc::Aac(f) => v::aac_encode(cram::codecs::aac::Flags::from_bits_retain(*f), src),
+            Enc::Tok => v::name_tokenizer_encode(src),
+            Enc::Fqz => v::fqzcomp_encode(lens, src),
             _ => Ok(src.to_vec()),
         }
     });
-    match r {
-        Ok(Ok(out)) if out == src => Ok(()),
-        Ok(Ok(out)) => Err(format!("decode(encode(x)) has {} bytes and differs from x ({} bytes)", out.len(), src.len())),
-        Ok(Err(e)) => Err(format!("error: {e}")),
-        Err(p) => Err(format!("panic: {p}")),
+    let data = match enc {
+        Ok(Ok(d)) => d,
+        Ok(Err(e)) => return Rt::Refused(format!("encoder error: {e}")),
+        Err(p) => return Rt::Broken(format!("encoder panic at {}: {p}", last_panic_location())),
+    };
+    let dec = guarded(|| -> std::io::Result<Vec<u8>> {
+        match e {
+            Enc::R4x8(_) => v::rans_4x8_decode(&data),
+            Enc::Nx16(_) => v::rans_nx16_decode(&data, src.len()),
+            Enc::Aac(_) => v::aac_decode(&data, src.len()),
+            Enc::Tok => v::name_tokenizer_decode(&data),
+            Enc::Fqz => v::fqzcomp_decode(&data),
+            _ => Ok(data.clone()),
+        }
+    });
+    match dec {
+        Ok(Ok(out)) if out == src => Rt::Same,
+        Ok(Ok(out)) => Rt::Broken(format!("decode(encode(x)) has {} bytes and differs from x ({} bytes)", out.len(), src.len())),
+        Ok(Err(e)) => Rt::Broken(format!("decoder error on the encoder's own output: {e}")),
+        Err(p) => Rt::Broken(format!("decoder panic at {} on the encoder's own output: {p}", last_panic_location())),
     }
 }
 
@@ -368,12 +416,6 @@ fn codec_attribution(case: &Case, p: &Parsed) -> Option<(String, String)> {
     let plan = case.opts.plan.as_ref()?;
     if !plan.all().iter().any(|e| matches!(e, Enc::R4x8(_) | Enc::Nx16(_) | Enc::Aac(_) | Enc::Tok | Enc::Fqz)) {
         return None;
-    }
-    // the core data block is always empty (every series is external) and always run through the core encoder
-    if let Err(msg) = codec_roundtrip(&plan.core, &[], &[]) {
-        if msg.starts_with("panic") || msg.starts_with("decode(encode") {
-            return Some((format!("codec-{}", plan.core.family()), format!("{} does not self-round-trip on the (always empty) core data block: {msg}", plan.core.label())));
-        }
     }
     let mut twin = case.clone();
     twin.opts.plan = Some(EncPlan::uniform(Enc::Raw));
@@ -432,8 +474,11 @@ fn codec_attribution(case: &Case, p: &Parsed) -> Option<(String, String)> {
         } else {
             &plan.dflt
         };
-        let lens = slice_lens.get(&(ci, si)).cloned().unwrap_or_default();
-        if let Err(msg) = codec_roundtrip(e, &raw, &lens) {
+        // as in `encode_block`: fqzcomp is given the non-empty records' lengths and is used only for a block that
+        // is exactly one array per record; any other block goes to the default encoder
+        let lens: Vec<usize> = slice_lens.get(&(ci, si)).cloned().unwrap_or_default().into_iter().filter(|n| *n > 0).collect();
+        let e = if *e == Enc::Fqz && lens.iter().sum::<usize>() != raw.len() { &plan.dflt } else { e };
+        if let Rt::Broken(msg) = codec_roundtrip(e, &raw, &lens) {
             let shown = if raw.len() <= 64 { hex(&raw) } else { format!("{}… ({} bytes)", hex(&raw[..64]), raw.len()) };
             return Some((format!("codec-{}", e.family()), format!("{} does not self-round-trip on the content of block {cid} (container {ci} slice {si}): {msg}; input {shown}", e.label())));
         }
@@ -485,14 +530,23 @@ fn run_case(ctx: &mut Ctx, case: &Case) -> Outcome {
             ctx.sample(|| format!("writer rejected {}: {e}", case.label));
             return out;
         }
-        WriteOut::Panic(pn) => {
-            // a panic is not "accepts" either, but it is never the intended way to refuse an input
-            let site = panic_class(case, &pn);
-            if let Some((cls, t)) = codec_attribution(case, &p) {
-                ctx.fail(&cls, format!("writer panicked ({pn}); {t}"), case.label.clone());
-            } else {
-                ctx.fail(&site, format!("writer panicked: {pn}"), case.label.clone());
-            }
+        WriteOut::Panic(pn, at) => {
+            // a panic is not "accepts" either, but it is never the intended way to refuse an input.
+            // The class comes from WHERE the writer panicked: inside a codec -> that codec; elsewhere -> the
+            // writer itself (by the shape of the input that triggers it).
+            let (cls, why) = match codec_of_location(&at) {
+                Some("fqzcomp") if pn.contains("subtract with overflow") => ("codec-fqzcomp".to_string(), "fqzcomp was given a zero-length record (a record without bases in the slice)".to_string()),
+                Some("fqzcomp") if pn.contains("index out of bounds") && at.contains("fqzcomp/encode.rs") => (
+                    "writer-panic-fqzcomp-lens".to_string(),
+                    format!("the quality block holds more bytes than the sum of the record lengths fqzcomp was given: the stream has {} ReadBase feature(s), each appends its score to the same series", read_base_features(case)),
+                ),
+                Some(fam) => (format!("codec-{fam}"), match codec_attribution(case, &p) {
+                    Some((c, t)) if c == format!("codec-{fam}") => t,
+                    _ => "the encoder panicked inside the writer".to_string(),
+                }),
+                None => (panic_class(case, &pn, &at), String::new()),
+            };
+            ctx.fail(&cls, format!("writer panicked at {at}: {pn}{}{why}", if why.is_empty() { "" } else { "; " }), case.label.clone());
             out.failed = true;
             return out;
         }
@@ -609,8 +663,62 @@ fn run_case(ctx: &mut Ctx, case: &Case) -> Outcome {
     out
 }
 
-fn panic_class(case: &Case, msg: &str) -> String {
-    if case.recs.iter().any(|r| !r.unmapped() && r.seq.is_empty() && !r.cigar.is_empty()) && (msg.contains("out of range") || msg.contains("index out of bounds") || msg.contains("range end")) {
+/// number of ReadBase features `cigar_to_features` produces for the stream: aligned bases that differ from the
+/// reference where either base is outside ACGTN (each appends one byte to the QS series besides the arrays)
+fn read_base_features(case: &Case) -> usize {
+    let acgtn = |b: u8| matches!(b.to_ascii_uppercase(), b'A' | b'C' | b'G' | b'T' | b'N');
+    let mut n = 0;
+    for r in &case.recs {
+        let (Some(rid), false) = (r.rid, r.seq.is_empty()) else { continue };
+        if r.pos == 0 || r.read_len_cigar() != r.seq.len() {
+            continue;
+        }
+        let rf = &case.refs[rid].1;
+        let (mut rp, mut qp) = (r.pos - 1, 0usize);
+        for (k, len) in &r.cigar {
+            match k {
+                b'M' | b'=' | b'X' => {
+                    for i in 0..*len {
+                        if let (Some(a), Some(b)) = (rf.get(rp + i), r.seq.get(qp + i)) {
+                            if !a.eq_ignore_ascii_case(b) && !(acgtn(*a) && acgtn(*b)) {
+                                n += 1;
+                            }
+                        }
+                    }
+                    rp += len;
+                    qp += len;
+                }
+                b'I' | b'S' => qp += len,
+                b'D' | b'N' => rp += len,
+                _ => {}
+            }
+        }
+    }
+    n
+}
+
+/// the codec a panic location lies in (`noodles-cram/src/codecs/<codec>/…`)
+fn codec_of_location(at: &str) -> Option<&'static str> {
+    let k = at.find("/codecs/")?;
+    let rest = &at[k + 8..];
+    Some(if rest.starts_with("fqzcomp") {
+        "fqzcomp"
+    } else if rest.starts_with("rans_4x8") {
+        "rans4x8"
+    } else if rest.starts_with("rans_nx16") {
+        "ransnx16"
+    } else if rest.starts_with("aac") {
+        "aac"
+    } else if rest.starts_with("name_tokenizer") {
+        "tok"
+    } else {
+        return None;
+    })
+}
+
+fn panic_class(case: &Case, msg: &str, at: &str) -> String {
+    // F25: `cigar_to_features` indexes the (empty) sequence of a mapped record that has a CIGAR
+    if case.recs.iter().any(|r| !r.unmapped() && r.seq.is_empty() && !r.cigar.is_empty()) && at.contains("position/sequence_index.rs") && (msg.contains("out of range") || msg.contains("index out of bounds")) {
         return "writer-panic-seq-missing".into();
     }
     if case.recs.iter().any(|r| !r.unmapped() && !r.seq.is_empty() && r.qual.is_empty()) && msg.contains("index out of bounds") {
@@ -1009,6 +1117,7 @@ fn dump_for_pyref(dir: &str, k: usize, case: &Case, bytes: &[u8]) {
 }
 
 pub fn run(ctx: &mut Ctx) {
+    install_panic_location_hook();
     if let Some(case) = ctx.replay_only.clone() {
         match case.first().map(|s| s.as_str()) {
             Some("rt") => {
